@@ -3,7 +3,18 @@
 #ifndef MVCAP
 #define MVCAP ((size_t)16384)   /* covers the longest MPI (65535 bits = 8192 octets + 2) */
 #endif
+#ifdef VEC_U8_NOCONTENT
+/* importing groups that use the content-free octet vector (no data object): the clauses about the announced length
+ * are read with MPILEN := return value - 2, i.e. weakened to "0, or at least 2 and at most in.size()" */
+#define MVEC_OK(v) (__CPROVER_is_fresh((v), sizeof(*(v))) && (v)->cap == MVCAP && (v)->size <= MVCAP)
+#define MPILEN(in) (__CPROVER_return_value - 2)
+/* strings: the header length (1, 2 or 5) depends on the first octet; content-free callers only learn the bracket */
+#define STR_OK(s) (__CPROVER_is_fresh((s), sizeof(*(s))))
+#define STR_GROWN(in, out, ret, oldsize) ((out)->size >= (oldsize) && (out)->size <= (oldsize) + (ret))
+#else
 #define MVEC_OK(v) (__CPROVER_is_fresh((v), sizeof(*(v))) && (v)->cap == MVCAP && (v)->size <= MVCAP && __CPROVER_is_fresh((v)->data, MVCAP))
-#define STR_OK(s) (__CPROVER_is_fresh((s), sizeof(*(s))) && (s)->cap == 2 * MVCAP && (s)->size <= MVCAP && __CPROVER_is_fresh((s)->data, 2 * MVCAP))
 #define MPILEN(in) ((((size_t)(in)->data[0] << 8) + (in)->data[1] + 7) / 8)
+#define STR_OK(s) (__CPROVER_is_fresh((s), sizeof(*(s))) && (s)->cap == 2 * MVCAP && (s)->size <= MVCAP && __CPROVER_is_fresh((s)->data, 2 * MVCAP))
+#define STR_GROWN(in, out, ret, oldsize) ((out)->size == (oldsize) + ((ret) - ((in)->data[0] < 192 ? 1 : ((in)->data[0] < 224 ? 2 : 5))))
+#endif
 #endif
